@@ -21,7 +21,9 @@ About half of the histories also carry "odd" content -- what a registrant is fre
 cannot carry it as it stands: parameter names that are no RFC 6690 parmname (up to a whole foreign link), parameter values,
 endpoint names and link attribute values with backslashes, quotes and the link-format delimiters (links written with
 quoted-pairs, or bare after the '='), parameters and link attributes without a value, a `base` / link target / anchor that has
-no RFC 3986 authority, a `base` without a value, and updates that name the very base the directory lists. The directory may
+no RFC 3986 authority, a `base` without a value, updates that name the very base the directory lists, a `base` or link
+target with characters that delimit URIs (blank, control, '<', '>', '"': the directory writes base + reference between '<'
+and '>'), and bases / relative references whose resolution (RFC 3986 5.2) has to keep an empty path segment or an empty query. The directory may
 refuse such a write (4.00: nothing changes) or accept it; the oracle is on what the lookups say afterwards: they must be
 answered 2.05 with link-format that parses and lists exactly what the model holds (the values as they were MEANT, independent
 of any parser: oddlinkset writes the payload from the structure), and filters on such names and values must work.
@@ -41,7 +43,8 @@ TECHNIQUE = (
     "missing Content-Format, garbage, a Reset or not at all) / POST and PUT update / DELETE / filtered and paged lookups / idle steps across lt and "
     "lt+grace, with valid and invalid parameters; in half of the histories also odd content (parameter names that are no parmname, values / endpoint "
     "names / link attribute values with backslashes, quotes and delimiters, parameters and link attributes without a value, base / link target / anchor without "
-    "an RFC 3986 authority, base without a value, updates naming the base the directory lists) and filters on those names and values; oracle = response-driven reference model keyed by (ep, d), compared after every step with endpoint lookup, "
+    "an RFC 3986 authority, base without a value, updates naming the base the directory lists, base / link target with URI-delimiting characters, bases with an empty path segment "
+    "or a query under relative references with empty segments and empty queries) and filters on those names and values; oracle = response-driven reference model keyed by (ep, d), compared after every step with endpoint lookup, "
     "resource lookup and every registration resource as parsed by an independent RFC 6690 parser and RFC 3986 resolver"
 )
 LEVEL_TEXT = (
@@ -50,7 +53,8 @@ LEVEL_TEXT = (
     "location rules (for a simple registration, whose 2.04 names no location, on the location the endpoint lookup shows for that (ep, d)), and "
     "liveness must follow last successful write + lt + grace on the virtual clock (a write answered 5.xx is not a successful one either). "
     "Whatever a write contained, every later lookup must be answered 2.05 with link-format that the independent parser reads and that lists "
-    "exactly the model's entries, with the parameter and attribute values as they were meant."
+    "exactly the model's entries, with the parameter and attribute values as they were meant, every target a URI-Reference (no character that delimits URIs, "
+    "RFC 3986 appendix C) and every target and anchor resolved against the registration base exactly as RFC 3986 5.2 says (independent resolver in harness/c20_ref.py)."
 )
 LEVEL_NOTE = (
     "Trusted: harness/c20_ref.py (model, RFC 3986 resolution), harness/reflink.py, simnet, refcodec. lt is not visible in lookups (RFC 9176 6.3), "
@@ -69,13 +73,13 @@ LEVEL_NOTE = (
     "re-synchronise the model to the observed state so that the rest of the history is still judged; any other difference ends the history. "
     "Odd content is judged on the lookups only, never on the response code of the write (refusing with 4.00 and accepting-and-escaping are both right); a mismatch "
     "is NAMED after the odd content of the registrations concerned (linkformat-injection/<parameter-name|parameter-value|link-attribute-value>/..., "
-    "unresolvable-uri/<base|link-target>/..., valueless-attribute/...) by harness/c20_ref.py features(), which plays no part in deciding that there is a mismatch. "
+    "unresolvable-uri/<base|link-target>/..., valueless-attribute/..., target-injection/<base|link-target>/..., resolution-not-rfc3986/<empty-path-segment|empty-query-reference>/...) by harness/c20_ref.py features(), which plays no part in deciding that there is a mismatch. "
     "Link sets written bare after '=' (not RFC 6690) mean what they were written from if the directory accepts them. A value-less search criterion is not generated."
 )
 RULE = (
     "one case = one history of 5-40 steps over <=4 endpoint names x <=2 sectors from <=3 registrants (plus 10 fixed scripts in shard 0); about an "
     "eighth of the steps are simple registrations (10 reactions of the registrant to the directory's fetch x 5 ways of delivering an answer). "
-    "In about half of the histories a quarter of the writes carry one of 30 odd parameter variants, a third of the bodies / fetched link sets one of 10 odd link sets, "
+    "In about half of the histories a third of the writes carry one of 43 odd parameter variants, half of the bodies / fetched link sets one of 16 odd link sets, "
     "one endpoint name may need escaping, every eighth update names the listed base, and half of the filtered lookups search the odd names and values. "
     "Non-trivial = the history contains a re-registration (either way), a rejected write to a live registration, an observed expiry or a request to a "
     "freed location; distinct = distinct sequences of (operation class, parameter variant, body variant or fetch reaction and delivery, response class)"
@@ -94,10 +98,14 @@ REQUIRED_MONITORS = {
     # comparison; update_naming_listed_base: updates with base=<what the endpoint lookup shows> (_default_base: the registration had no
     # explicit base); filter_on_*: filtered lookups compared with the model whose search key some live registration carries without a
     # value / whose search value contains a backslash or quote (_matching: and the model expects entries)
+    # resolution_with_empty_segment_or_query_listed: live registrations, per complete comparison, whose expected targets / anchors depend on
+    # RFC 3986 5.2 keeping an empty path segment or an empty query
     "quick": {"lookup_ep_matches_model": 15000, "lookup_res_matches_model": 15000, "registration_resource_matches_model": 25000, "unchanged_after_4xx": 6000, "location_rules": 3000, "expiry": 4000, "acceptance_pins": 30, "lookup_filter": 1500, "lookup_filter_two_criteria": 300, "pagination": 500, "simple_registration": 2500, "simple_registration_listed": 1000, "simple_registration_failed_fetch": 1000,
-              "write_parameter_name_not_a_parmname": 400, "write_parameter_value_needing_escapes": 450, "write_parameter_without_value": 300, "write_base_not_a_uri": 200, "write_base_without_value": 90, "write_links_needing_escapes": 900, "write_link_attributes_without_value": 130, "write_link_target_not_a_uri": 450, "update_naming_listed_base": 400, "update_naming_listed_default_base": 300, "filter_on_name_registered_without_value": 60, "filter_on_value_needing_escapes": 220, "filter_on_value_needing_escapes_matching": 15},
+              "write_parameter_name_not_a_parmname": 400, "write_parameter_value_needing_escapes": 450, "write_parameter_without_value": 300, "write_base_not_a_uri": 200, "write_base_without_value": 90, "write_links_needing_escapes": 900, "write_link_attributes_without_value": 130, "write_link_target_not_a_uri": 450, "update_naming_listed_base": 400, "update_naming_listed_default_base": 300, "filter_on_name_registered_without_value": 60, "filter_on_value_needing_escapes": 220, "filter_on_value_needing_escapes_matching": 15,
+              "write_base_with_uri_delimiter": 250, "write_link_target_with_uri_delimiter": 300, "write_base_with_empty_segment_or_query": 250, "write_relative_links_with_empty_segment_or_query": 350, "resolution_with_empty_segment_or_query_listed": 300},
     "thorough": {"lookup_ep_matches_model": 500000, "lookup_res_matches_model": 500000, "registration_resource_matches_model": 800000, "unchanged_after_4xx": 200000, "location_rules": 100000, "expiry": 120000, "acceptance_pins": 30, "lookup_filter": 50000, "lookup_filter_two_criteria": 10000, "pagination": 15000, "simple_registration": 100000, "simple_registration_listed": 40000, "simple_registration_failed_fetch": 40000,
-                 "write_parameter_name_not_a_parmname": 16000, "write_parameter_value_needing_escapes": 18000, "write_parameter_without_value": 12000, "write_base_not_a_uri": 8000, "write_base_without_value": 3600, "write_links_needing_escapes": 36000, "write_link_attributes_without_value": 5200, "write_link_target_not_a_uri": 18000, "update_naming_listed_base": 16000, "update_naming_listed_default_base": 12000, "filter_on_name_registered_without_value": 2400, "filter_on_value_needing_escapes": 8800, "filter_on_value_needing_escapes_matching": 600},
+                 "write_parameter_name_not_a_parmname": 16000, "write_parameter_value_needing_escapes": 18000, "write_parameter_without_value": 12000, "write_base_not_a_uri": 8000, "write_base_without_value": 3600, "write_links_needing_escapes": 36000, "write_link_attributes_without_value": 5200, "write_link_target_not_a_uri": 18000, "update_naming_listed_base": 16000, "update_naming_listed_default_base": 12000, "filter_on_name_registered_without_value": 2400, "filter_on_value_needing_escapes": 8800, "filter_on_value_needing_escapes_matching": 600,
+                 "write_base_with_uri_delimiter": 10000, "write_link_target_with_uri_delimiter": 12000, "write_base_with_empty_segment_or_query": 10000, "write_relative_links_with_empty_segment_or_query": 14000, "resolution_with_empty_segment_or_query_listed": 12000},
 }
 
 JUDGE_LOCATION_REUSE = False  # see do_reg: count (False) or report (True) the re-use of a freed location for another (ep, d)
@@ -174,7 +182,24 @@ ODD_PV = {
     "base-not-ascii-compatible": (["base=coap://ex\u2100mple/"], "odd"),
     "base-novalue": (["base"], "odd"),
     "lt5+base-novalue": (["lt=5", "base"], "odd"),
+    # a base with characters that delimit a URI (RFC 3986 appendix C): every link of the endpoint is listed as <base + reference>
+    "base-foreign-link": (["base=coap://h.example/a>,<coap://victim.example/"], "odd"),
+    "base-gt": (["base=coap://h.example/a>b/"], "odd"),
+    "base-lt+lt60": (["lt=60", "base=coap://h.example/a<b/"], "odd"),
+    "base-quote": (['base=coap://h.example/a"b/'], "odd"),
+    "base-space": (["base=coap://h.example/a b/"], "odd"),
+    "base-tab": (["base=coap://h.example/a\tb/"], "odd"),
+    "base-newline": (["base=coap://h.example/a\nb/"], "odd"),
+    "base-comma": (["base=coap://h.example/a,b;c/"], "odd"),
+    # bases whose path has an empty segment or that carry a query: resolving relative references against them (RFC 3986 5.2)
+    "base-empty-segment": (["base=coap://h.example/fw//v2/"], "odd"),
+    "base-empty-segment-last+lt60": (["lt=60", "base=coap://h.example/a/b//"], "odd"),
+    "base-empty-segment-first": (["base=coap://h.example//x/y"], "odd"),
+    "base-query": (["base=coap://h.example/p/q?x=1"], "odd"),
+    "base-query-dir+lt120": (["lt=120", "base=coap://h.example/p/?x=1&y"], "odd"),
 }
+DELIMITER_PV = ["base-foreign-link", "base-gt", "base-lt+lt60", "base-quote", "base-space", "base-tab", "base-newline"]
+RESOLUTION_PV = ["base-empty-segment", "base-empty-segment-last+lt60", "base-empty-segment-first", "base-query", "base-query-dir+lt120", "base-path", "base-tcp", "lt60+base", "base-comma"]
 REG_PV.update(ODD_PV)
 REG_ODD = list(ODD_PV)
 REG_VALID = [k for k, v in REG_PV.items() if v[1] == "valid"]
@@ -261,7 +286,10 @@ def linkset(i, tag):
 # `how`: "quoted" = serialised per RFC 6690 ('\\' and '"' escaped in quoted-strings); "token" = the value follows the '='
 # bare although it contains characters outside ptoken -- not RFC 6690, a directory may refuse it (4.00) or read it the
 # only way it can be read (up to the next ';' or ','), which is what is meant.
-NODDLINKS = 10
+#        "lenient-target" = a target with a character that delimits a URI ('<', '"', blank, control; '>' cannot be written at
+#        all) -- not RFC 6690 either, refused or taken as written.
+# Sets 13-15 are plain RFC 6690: relative references whose resolution (RFC 3986 5.2) meets empty path segments and queries.
+NODDLINKS = 16
 
 
 def oddlinkset(i, tag):
@@ -278,6 +306,12 @@ def oddlinkset(i, tag):
         ([("/%s/ok" % t, (("rt", "ext"),)), ("http://[", ())], "quoted"),
         ([("//[::1/%s" % t, (("rt", "x"),))], "quoted"),
         ([("/%s/anch" % t, (("anchor", "coap://[zz]/"), ("rel", "hosts")))], "quoted"),
+        ([("/%s/ok" % t, (("rt", "ext"),)), ("%s/a<b" % t, (("rt", "x"),))], "lenient-target"),
+        ([("/%s/sp ace" % t, (("rt", "x"),))], "lenient-target"),
+        ([("%s/q\"uote" % t, ()), ("/%s/t\tab" % t, (("rt", "x"),))], "lenient-target"),
+        ([("%s/a//b" % t, (("rt", "x"),)), ("/%s/abs//kept" % t, ())], "quoted"),
+        ([("%s//" % t, ()), ("./%s/c//d/../e" % t, (("anchor", "s//%s" % t), ("rel", "hosts"))), ("?y=%s" % t, ())], "quoted"),
+        ([("%s/status" % t, (("rt", "temperature-c"),)), ("", (("rt", "self"),)), ("?", ()), ("../%s/up" % t, (("anchor", "a>b"),))], "quoted"),
     ]
     meant, how = sets[i]
     out = []
@@ -308,6 +342,13 @@ def oddlinks_selftest(reflink):
             except reflink.Malformed:
                 continue
             raise AssertionError("odd link set %d: the token style was meant not to be RFC 6690" % i)
+        if how == "lenient-target":
+            # (the independent parser only insists that no '<' is inside a target; where it reads the payload, then as meant)
+            try:
+                assert reflink.parse(payload) == want, (i, payload)
+            except reflink.Malformed:
+                pass
+            continue
         got = reflink.parse(payload)
         assert got == want, (i, payload, got, want)
     return True
@@ -323,7 +364,7 @@ def plan(tier, seed):
 
 
 def gen_body(r, ver, odd=False):
-    if odd and r.random() < 0.35:
+    if odd and r.random() < 0.5:
         return ["odd", r.randrange(NODDLINKS), ver]
     x = r.random()
     if x < 0.80:
@@ -340,7 +381,7 @@ def gen_body(r, ver, odd=False):
 def gen_react(r, ver, odd=False):
     """-> (reaction of the registrant to the directory's fetch, delivery mode, delay of a separate response)"""
     x = r.random()
-    if odd and r.random() < 0.3:
+    if odd and r.random() < 0.42:
         react = ["odd", r.randrange(NODDLINKS), ver]
     elif x < 0.50:
         react = ["links", r.randrange(NLINKSETS), ver]
@@ -378,7 +419,7 @@ def gen(r):
     n = r.choice([5, 8, 12, 16, 24, 32, 40])
     neps, nsect, npeers = r.choice([1, 2, 2, 3, 4]), r.choice([1, 2]), r.choice([1, 2, 3])
     short = r.random() < 0.75
-    # about half of the histories also carry "odd" content (see ODD_PV, oddlinkset, ODD_EPS): there about a quarter of the
+    # about half of the histories also carry "odd" content (see ODD_PV, oddlinkset, ODD_EPS): there about a third of the
     # writes have an odd parameter variant, a third of the bodies an odd link set, and one endpoint name may be odd
     odd = r.random() < 0.5
     eps = list(EPS)
@@ -387,7 +428,7 @@ def gen(r):
     steps = []
     for i in range(n):
         x = r.random()
-        oddpv = odd and r.random() < 0.27
+        oddpv = odd and r.random() < 0.36
         if (i == 0 or x < 0.30) and r.random() < 0.32:
             y = r.random()
             if oddpv:
@@ -416,7 +457,13 @@ def gen(r):
             else:
                 pv = "lt-novalue"
             shape = "ok" if r.random() < 0.88 else r.choice(["ep-missing", "ep-repeated", "d-repeated", "ep-novalue"])
-            steps.append({"op": "reg", "peer": r.randrange(npeers), "ep": r.randrange(neps), "d": r.randrange(nsect), "shape": shape, "pv": pv, "body": gen_body(r, i, odd)})
+            body = gen_body(r, i, odd)
+            if body[0] == "odd" and body[1] >= 13 and r.random() < 0.5:
+                pv = r.choice(RESOLUTION_PV)  # relative references meet a base with a path worth resolving against
+            elif (pv in RESOLUTION_PV[:5] or pv in DELIMITER_PV) and r.random() < 0.5:
+                # (a base's path only shows in the targets of relative references)
+                body = r.choice([["odd", r.randrange(13, 16), i], ["links", 2, i]])
+            steps.append({"op": "reg", "peer": r.randrange(npeers), "ep": r.randrange(neps), "d": r.randrange(nsect), "shape": shape, "pv": pv, "body": body})
         elif x < 0.52:
             y = r.random()
             pv = r.choice(UPD_VALID) if y < 0.55 else r.choice(UPD_INVALID) if y < 0.96 else "lt-novalue"
@@ -435,7 +482,10 @@ def gen(r):
             pv = r.choice(UPD_VALID) if y < 0.6 else r.choice(UPD_INVALID)
             if oddpv:
                 pv = r.choice(UPD_ODD)
-            steps.append({"op": "put", "peer": r.randrange(npeers), "tgt": gen_target(r, neps, nsect), "pv": pv, "body": gen_body(r, i, odd)})
+            body = gen_body(r, i, odd)
+            if body[0] == "odd" and body[1] >= 13 and r.random() < 0.4:
+                pv = r.choice(RESOLUTION_PV[:5])
+            steps.append({"op": "put", "peer": r.randrange(npeers), "tgt": gen_target(r, neps, nsect), "pv": pv, "body": body})
         elif x < 0.68:
             steps.append({"op": "del", "peer": r.randrange(npeers), "tgt": gen_target(r, neps, nsect)})
         elif x < (0.80 if odd else 0.88):
@@ -632,6 +682,39 @@ FIXED = {
         {"op": "post", "peer": 0, "tgt": ["key", 0, 0], "pv": "none", "body": "none"},
         _S(1, 1, 0, "lt120", ["links", 1, 0], mode="separate", delay=20.0),
     ],
+    "w-target-base-foreign-link": [
+        {"op": "reg", "peer": 0, "ep": 0, "d": 0, "shape": "ok", "pv": "plain", "body": _L(0)},
+        {"op": "reg", "peer": 1, "ep": 1, "d": 0, "shape": "ok", "pv": "base-foreign-link", "body": _L(2)},
+    ],
+    "w-target-base-update": [
+        {"op": "reg", "peer": 0, "ep": 0, "d": 0, "shape": "ok", "pv": "plain", "body": _L(0)},
+        {"op": "reg", "peer": 1, "ep": 1, "d": 0, "shape": "ok", "pv": "lt60", "body": _L(2)},
+        {"op": "post", "peer": 1, "tgt": ["key", 1, 0], "pv": "base-gt", "body": "none"},
+    ],
+    "w-target-base-space": [
+        {"op": "reg", "peer": 1, "ep": 1, "d": 0, "shape": "ok", "pv": "base-space", "body": ["odd", 15, 0]},
+    ],
+    "w-target-link": [
+        {"op": "reg", "peer": 0, "ep": 0, "d": 0, "shape": "ok", "pv": "plain", "body": _L(0)},
+        {"op": "reg", "peer": 1, "ep": 1, "d": 0, "shape": "ok", "pv": "plain", "body": ["odd", 10, 0]},
+    ],
+    "w-target-link-simple": [
+        {"op": "reg", "peer": 0, "ep": 0, "d": 0, "shape": "ok", "pv": "plain", "body": _L(0)},
+        _S(1, 1, 0, "lt60", ["odd", 11, 0]),
+    ],
+    "w-resolution-empty-segment-in-base": [
+        {"op": "reg", "peer": 0, "ep": 0, "d": 0, "shape": "ok", "pv": "base-empty-segment", "body": _L(2)},
+    ],
+    "w-resolution-empty-segment-in-reference": [
+        {"op": "reg", "peer": 0, "ep": 0, "d": 0, "shape": "ok", "pv": "base-tcp", "body": ["odd", 13, 0]},
+    ],
+    "w-resolution-empty-query": [
+        {"op": "reg", "peer": 0, "ep": 0, "d": 0, "shape": "ok", "pv": "base-query", "body": ["odd", 15, 0]},
+    ],
+    "w-resolution-empty-query-default-base-put": [
+        {"op": "reg", "peer": 0, "ep": 0, "d": 0, "shape": "ok", "pv": "lt60", "body": _L(0)},
+        {"op": "put", "peer": 0, "tgt": ["key", 0, 0], "pv": "none", "body": ["odd", 15, 1]},
+    ],
     "w-odd-update-base-without-value": [
         {"op": "reg", "peer": 0, "ep": 0, "d": 0, "shape": "ok", "pv": "lt60", "body": _L(0)},
         {"op": "put", "peer": 0, "tgt": ["key", 0, 0], "pv": "lt180+base-novalue", "body": _L(1, 1)},
@@ -657,10 +740,16 @@ def write_dims(pv, table, body):
             out.append("write_parameter_without_value")
         elif "base-novalue" in pv:
             out.append("write_base_without_value")
+        elif cls == "odd" and pv.split("+")[0] in ("base-foreign-link", "base-gt", "base-lt", "base-quote", "base-space", "base-tab", "base-newline"):
+            out.append("write_base_with_uri_delimiter")
+        elif cls == "odd" and (pv.startswith("base-empty-segment") or pv.startswith("base-query")):
+            out.append("write_base_with_empty_segment_or_query")
+        elif pv == "base-comma":
+            pass
         elif cls == "odd" and "base-" in pv:
             out.append("write_base_not_a_uri")
     if body is not None and body[0] == "odd":
-        out.append("write_links_needing_escapes" if body[1] <= 5 else "write_link_attributes_without_value" if body[1] == 6 else "write_link_target_not_a_uri")
+        out.append("write_links_needing_escapes" if body[1] <= 5 else "write_link_attributes_without_value" if body[1] == 6 else "write_link_target_not_a_uri" if body[1] <= 9 else "write_link_target_with_uri_delimiter" if body[1] <= 12 else "write_relative_links_with_empty_segment_or_query")
     return out
 
 
@@ -910,9 +999,15 @@ class Runner:
         if m.code >> 5 != 2:
             return m.code, "code %s" % self.rc.code_str(m.code), body
         try:
-            return m.code, self.reflink.parse(body), body
+            links = self.reflink.parse(body)
         except self.reflink.Malformed as e:
             return m.code, "unparsable link-format: %s" % e, body
+        for l in links:
+            # RFC 6690 2: what stands between '<' and '>' is a URI-Reference; the characters that DELIMIT a URI (RFC 3986
+            # appendix C: blank, control, '<', '>', '"') cannot be part of one
+            if self.ref.has_uri_delimiter(l.href):
+                return m.code, "unparsable link-format: the target %r is no URI-Reference (it contains a character that delimits URIs)" % (l.href[:60],), body
+        return m.code, links, body
 
     # -- observation ------------------------------------------------------------------------------------
     def norm_href(self, h):
@@ -980,6 +1075,10 @@ class Runner:
             self.adopt_default_bases(m, obs)
         rep.monitor("lookup_ep_matches_model")
         rep.monitor("lookup_res_matches_model")
+        corners = sum(1 for r in self.model.live.values() if ref.resolution_features(r))
+        if corners:
+            # live registrations whose listed targets / anchors depend on RFC 3986 5.2 keeping an empty path segment or an empty query
+            rep.monitor("resolution_with_empty_segment_or_query_listed", corners)
         rep.monitor("registration_resource_matches_model", len(probe))
         if ctx["kind"] == "op" and ctx.get("cc") == 4 and ctx.get("write"):
             rep.monitor("unchanged_after_4xx")
@@ -1119,6 +1218,15 @@ class Runner:
         "link-target": "a link whose target or anchor has no RFC 3986 authority (so it cannot be resolved) was accepted",
     }
 
+    TGT_TEXT = {
+        "base": "a registration whose base contains a character that delimits URIs (blank, control, '<', '>', '\"') was accepted, and the base is written between the '<' and '>' of every link of that endpoint",
+        "link-target": "a link whose target contains a character that delimits URIs (blank, control, '<', '\"') was accepted and is written out as it came",
+    }
+    RES_TEXT = {
+        "empty-path-segment": "a relative-path reference was resolved against the registration base where the merged path has an empty segment ('//')",
+        "empty-query-reference": "a reference with an empty query ('?') was resolved against the registration base",
+    }
+
     def attribute(self, mm, obs, model=None):
         """Name a mismatch after the odd content of the registrations concerned. -> (key, text) | None.
         Only naming: that there IS a violation was decided by the comparison with the model."""
@@ -1154,6 +1262,14 @@ class Runner:
                 if f in feats:
                     return "unresolvable-uri/%s/%s-fails" % (f, which), "%s; the %s now answers %s" % (self.URI_TEXT[f], which.replace("lookup-ep", "endpoint lookup").replace("lookup-res", "resource lookup").replace("regres", "registration resource"), d.get("error") or d.get("got"))
             return None
+        if which != "lookup-ep":
+            for f, name in (("delimiter-in-base", "base"), ("delimiter-in-link-target", "link-target")):
+                if f in feats and (f != "delimiter-in-base" or which == "lookup-res"):
+                    return "target-injection/%s/%s-%s" % (name, which, sym), "%s; the %s %s" % (self.TGT_TEXT[name], which.replace("lookup-res", "resource lookup").replace("regres", "registration resource"), "is no link-format any more" if sym == "unparsable" else "lists other links than were registered")
+        if which == "lookup-res" and sym == "wrong-entries":
+            for f in ("empty-path-segment", "empty-query-reference"):
+                if f in feats:
+                    return "resolution-not-rfc3986/%s/lookup-res-wrong-entries" % f, "%s; the resource lookup lists other targets or anchors than RFC 3986 5.2 gives" % self.RES_TEXT[f]
         order = ("parameter-name", "parameter-value") if which == "lookup-ep" else ("link-attribute-value",)
         for f in order:
             if f in feats:
@@ -1176,6 +1292,9 @@ class Runner:
                     if f in feats:
                         return "unresolvable-uri/%s/lookup-%s-fails" % (f, kind), "%s; a filtered lookup now answers %s" % (self.URI_TEXT[f], err[5:])
             elif err.startswith("unparsable"):
+                for f, name in (("delimiter-in-base", "base"), ("delimiter-in-link-target", "link-target")) if kind == "res" else ():
+                    if f in feats:
+                        return "target-injection/%s/lookup-res-unparsable" % name, "%s; a filtered lookup is no link-format any more" % self.TGT_TEXT[name]
                 for f in ("parameter-name", "parameter-value") if kind == "ep" else ("link-attribute-value",):
                     if f in feats:
                         return "linkformat-injection/%s/lookup-%s-unparsable" % (f, kind), "%s; a filtered lookup is no link-format any more" % self.INJ_TEXT[f]
@@ -1184,6 +1303,9 @@ class Runner:
         inv = [r for r in live if (r.ep_entry() in delta if kind == "ep" else any(e in delta for e in r.res_entries()))]
         if not inv:
             return None
+        if all(ref.resolution_features(r) for r in inv):
+            f = sorted(set(x for r in inv for x in ref.resolution_features(r)))[0]
+            return "resolution-not-rfc3986/%s/filter-mismatch" % f, "%s; a lookup filtering on the resolved target, or the entries it lists, differ from what RFC 3986 5.2 gives" % self.RES_TEXT[f]
         found = set()
         for r in inv:
             f = ref.features(r)
